@@ -14,6 +14,8 @@ DEPTH2 = [
     ["merge_self_agg", "rename_ab"], ["assign_z", "shuffle_a"], ["assign_z", "set_index_u"], ["assign_z", "gb_a_agg"], ["assign_z", "merge_T2_left"],
     ["col_b", "s_rename"], ["col_b", "to_frame"], ["a_plus_b", "s_rename"], ["index", "unique"], ["shift1", "assign_z"],
     # top-n rewrites: the chunk function receives the partition object itself
+    # rows that are equal in every selected column sit in different partitions under different labels: which copy survives
+    ["proj_cd", "dropdup"], ["proj_a1", "dropdup"], ["col_a", "dropdup"], ["proj_abu", "dropdup_a"], ["proj_ab", "dropdup_a"],
     ["sort_u", "head3"], ["sort_a", "head3"], ["set_index_u", "head3"], ["sort_u", "tail3"], ["set_index_u", "tail3"], ["nlargest2_u", "assign_z"],
 ]
 # programs run on a PERSISTED source too (partition objects shared between queries and held in the graph)
